@@ -4,6 +4,7 @@ import (
 	"bytes"
 	"encoding/json"
 	"fmt"
+	"hash/fnv"
 	"regexp"
 	"strings"
 )
@@ -30,31 +31,67 @@ func jsonStr(s string) string {
 	return strings.TrimRight(bb.String(), "\n")
 }
 
+// WriteJSON renders the document as JSON. The layout (compact, spaces after separators, indented with
+// blanks or tabs, blanks before the colon) is picked by a hash of the compact text, so that every check
+// that writes JSON sees all layouts while the text stays a pure function of the case.
 func WriteJSON(v any) string {
+	compact := WriteJSONStyle(v, 0)
+	h := fnv.New32a()
+	h.Write([]byte(compact))
+	return WriteJSONStyle(v, int(h.Sum32()%5))
+}
+
+// WriteJSONStyle: 0 compact, 1 ", " and ": ", 2 indented by two blanks, 3 indented by tabs, 4 " : " and newline after commas.
+func WriteJSONStyle(v any, style int) string {
 	var sb strings.Builder
-	writeJSON(&sb, v)
+	writeJSON(&sb, v, style, 0)
 	return sb.String()
 }
 
-func writeJSON(sb *strings.Builder, v any) {
+func writeJSON(sb *strings.Builder, v any, style, depth int) {
+	colon, comma, open, closeNL := ":", ",", "", ""
+	nl := func(d int) string { return "" }
+	switch style {
+	case 1:
+		colon, comma = ": ", ", "
+	case 2, 3:
+		unit := "  "
+		if style == 3 {
+			unit = "\t"
+		}
+		colon = ": "
+		nl = func(d int) string { return "\n" + strings.Repeat(unit, d) }
+	case 4:
+		colon, comma = " : ", ",\n"
+	}
+	_ = open
+	_ = closeNL
 	switch t := v.(type) {
 	case Map:
 		sb.WriteString("{")
 		for i, kv := range t {
 			if i > 0 {
-				sb.WriteString(",")
+				sb.WriteString(comma)
 			}
-			sb.WriteString(jsonStr(kv.K) + ":")
-			writeJSON(sb, kv.V)
+			sb.WriteString(nl(depth + 1))
+			sb.WriteString(jsonStr(kv.K) + colon)
+			writeJSON(sb, kv.V, style, depth+1)
+		}
+		if len(t) > 0 {
+			sb.WriteString(nl(depth))
 		}
 		sb.WriteString("}")
 	case List:
 		sb.WriteString("[")
 		for i, e := range t {
 			if i > 0 {
-				sb.WriteString(",")
+				sb.WriteString(comma)
 			}
-			writeJSON(sb, e)
+			sb.WriteString(nl(depth + 1))
+			writeJSON(sb, e, style, depth+1)
+		}
+		if len(t) > 0 {
+			sb.WriteString(nl(depth))
 		}
 		sb.WriteString("]")
 	case string:
@@ -137,6 +174,31 @@ func yamlScalar(v any) (string, bool) {
 	panic(fmt.Sprintf("yaml: unsupported %T", v))
 }
 
+// blockLines: multi-line text whose lines can stand in a literal block scalar as they are.
+func blockLines(v any) ([]string, bool) {
+	var s string
+	switch t := v.(type) {
+	case string:
+		s = t
+	case Plain:
+		s = string(t)
+	default:
+		return nil, false
+	}
+	if !strings.Contains(s, "\n") {
+		return nil, false
+	}
+	lines := strings.Split(s, "\n")
+	for _, l := range lines {
+		if l == "" || strings.TrimSpace(l) != l || !rxBlockLine.MatchString(l) {
+			return nil, false
+		}
+	}
+	return lines, true
+}
+
+var rxBlockLine = regexp.MustCompile(`^[!A-Za-z0-9+/=:]+$`)
+
 func yamlKey(k string) string {
 	if regexp.MustCompile(`^[A-Za-z][A-Za-z0-9]*$`).MatchString(k) {
 		return k
@@ -152,6 +214,14 @@ func writeYAMLMap(sb *strings.Builder, m Map, indent int, inline bool) {
 			sb.WriteString(ind(indent))
 		}
 		sb.WriteString(yamlKey(kv.K) + ":")
+		if lines, ok := blockLines(kv.V); ok {
+			// literal block scalar, final line break stripped
+			sb.WriteString(" |-\n")
+			for _, l := range lines {
+				sb.WriteString(ind(indent+1) + l + "\n")
+			}
+			continue
+		}
 		if s, ok := yamlScalar(kv.V); ok {
 			sb.WriteString(" " + s + "\n")
 			continue
